@@ -219,7 +219,7 @@ func checkStubs(c *Case, rec *recorder, ta, tb []*html.Node) (sig, obs, exp stri
 				if !consume(mt, false, txt) {
 					if otxt == txt {
 						why := "unminified"
-						if rawEss != mt {
+						if rawEss != "" && rawEss != mt {
 							why = "type-not-lowercase"
 						}
 						fail("stub-not-called:"+tag+"-element:"+why, "content passed through unminified (type "+rawEss+")", "minified as "+mt)
@@ -339,9 +339,9 @@ type lexAttr struct {
 }
 
 type lexTag struct {
-	name  string
-	end   bool
-	attrs []lexAttr
+	name      string
+	end       bool
+	attrs     []lexAttr
 	emptyPair bool // start tag without attributes directly followed by its end tag
 }
 
